@@ -117,6 +117,36 @@ def identity_member(desc, tier, seed):
                       f'decode differs after pickle: {list(x1)} vs {list(x2)}', (desc.label, 'pickle-gp', tuple(x)))
     except Exception as e:  # noqa
         pass
+    # a copy and a rebuild with the edges added in reverse order define the same variables and the same mapping
+    try:
+        from adsg_core.optimization.graph_processor import GraphProcessor
+        from adsg_core.optimization.hierarchy import SelChoiceEncoderType
+        gp0 = GraphProcessor(g, encoder_type=SelChoiceEncoderType.COMPLETE)
+        rev = specsem.Desc(list(reversed(desc.nodes)), list(reversed(desc.edges)), desc.start,
+                           choices=[tuple(c) for c in reversed(desc.choices)], incompat=desc.incompat,
+                           constraints=desc.constraints, conns=[tuple(c) for c in reversed(desc.conns)],
+                           groups=[tuple(x) for x in desc.groups], conn_choices=[tuple(x) for x in desc.conn_choices],
+                           dvs=[tuple(d) for d in reversed(desc.dvs)], metrics=[tuple(m) for m in reversed(desc.metrics)], label=desc.label)
+        for how, (bv, gv) in (('copy', (b, g.copy())), ('reordered-rebuild', (lambda bb_: (bb_, bb_.dsg))(gen.Built(rev)))):
+            gpv = GraphProcessor(gv, encoder_type=SelChoiceEncoderType.COMPLETE)
+            same_vars = [str(d) for d in gp0.des_vars] == [str(d) for d in gpv.des_vars]
+            ctx.check('C18.same-design-space-same-variables', same_vars, ['COMPLETE', how],
+                      f'design variables of the {how}: {[str(d) for d in gpv.des_vars]} vs {[str(d) for d in gp0.des_vars]}', (desc.label, how))
+            if same_vars:
+                X, _ = all_vectors(gp0.des_vars, cap=24)
+                for x in X:
+                    i1, x1, a1 = gp0.get_graph(list(x))
+                    i2, x2, a2 = gpv.get_graph(list(x))
+                    ok = list(map(float, x1)) == list(map(float, x2)) and list(a1) == list(a2) and obs_arch(b, i1, True) == obs_arch(bv, i2, True)
+                    # names the situation "the graph has a connection choice": connectors carry no ordering key of
+                    # their own, their order (and with it the meaning of the connection variables) follows the order
+                    # in which the edges were added
+                    wc = f'connector-order-follows-edge-order|{how}' if (not ok and desc.conn_choices) else None
+                    ctx.check('C18.same-design-space-same-mapping', ok, ['COMPLETE', how, x],
+                              f'decode of {x} differs between the graph and its {how}: {list(x1)} / {sorted(obs_arch(b, i1, True)[1:])} vs '
+                              f'{list(x2)} / {sorted(obs_arch(bv, i2, True)[1:])}', (desc.label, how, tuple(x)), wclass=wc)
+    except Exception as e:  # noqa
+        pass
     # exports contain every node and edge
     try:
         dot = g.export_dot(return_dot=True).to_string()
